@@ -249,3 +249,19 @@ PROPS["C13"] = {
     "outside": ["v1/v2 reactors", "pool bookkeeping (AddBlock / peer ranges / timeouts): H2 is not built", "reaching the tip over several blocks"],
     "timeout_quick": 300, "timeout_thorough": 600,
 }
+
+PROPS["C16"] = {
+    "files": ["p2p/conn/secret_connection.go"],
+    "groups": [
+        {"dir": "p2p/conn",
+         "quick": ["VP_C16_IncrNonce", "VP_C16_Frames_w1_d2", "VP_C16_Frames_w2_d2"],
+         "thorough": ["VP_C16_Frames_w2_d3", "VP_C16_Frames_w3_d3"]},
+    ],
+    "bounds": {
+        "frame layer (H1)": "the real SecretConnection.Write and Read on two connection structs sharing a key, linked by an adversarial pipe: up to 2 (thorough 3) writes of arbitrary bytes of length in {1,1023,1024,1025,2049}, any one link write may fail; then up to 2 (thorough 3) deliveries of any stored frame (in order, out of order, replayed, skipped), untouched / one byte at offset {0,3,4,500,len-17,len-1} xor an arbitrary non-zero mask / last byte cut; read buffers of {1,7,1024,4096} bytes; a wrapper around the sending AEAD records every nonce",
+        "nonce counter": "incrNonce on an arbitrary 12-byte nonce (all 2^96 values, decided per byte pattern by the solver)",
+    },
+    "stubs": ["chacha20poly1305 Seal/Open idealised: Open succeeds only on exactly a ciphertext Seal produced under the same key, nonce and additional data (the AEAD's INT-CTXT assumption); natively the real cipher runs"],
+    "outside": ["the handshake (MakeSecretConnection: X25519, merlin transcript, HKDF, challenge signature) and p2p/transport.go upgrade: the primitives are not encoded, so the authentication half of C16 is outside this check", "frames longer than 3 per write, more than 3 writes"],
+    "timeout_quick": 300, "timeout_thorough": 900,
+}
